@@ -88,7 +88,8 @@ func mixPayload(d fitmodel.Def, pos int) []byte {
 			case d.Global == 0 && f.Num == 0:
 				v = 4
 			case d.Global == 34 && f.Num == 5:
-				v = uint64(1000000000 + ((pos*37)%11)*50 + 3600*(pos%3))
+				// local time: whole hours, and offsets that are not whole minutes
+				v = uint64(1000000000 + ((pos*37)%11)*50 + 3600*(pos%3) + 13*(pos%2))
 			case fitmodel.BaseSigned(f.Base) && pos%2 == 1:
 				v = uint64(int64(-(pos*7 + j + 2))) // two's complement, truncated by PutUint
 			default:
@@ -262,6 +263,9 @@ func init() {
 	const t = " Shared mix family: all words up to length 3 (quick) / 4 (thorough) over {define(l, one of 12 shapes), data(l), compressed data(l)} for two local types — both byte orders, timestamp first / in the middle / absent, zero-field and developer-field definitions, an unknown message, unknown fields in a known message, signed, array and local-time fields, a message the file type does not host, a second file_id — each word also followed by a probe of every defined local type; the decoded File is compared message by message and field by field with a complete reference decoder (independent parser + value model + timestamp machine + reflection-derived router)."
 	for _, id := range []string{"C02", "C03", "C12", "C13"} {
 		vx.AppendRule(id, t)
+	}
+	for _, id := range []string{"C12", "C13"} {
+		vx.AppendRule(id, " The same words as members of chains (all ordered pairs, triples of the short words) through DecodeChained: each File must equal the reference prediction for its member alone, so neither the reference time nor the definition slots survive a file boundary.")
 	}
 	vx.AppendRule("C16", " Generic form: counters derived from the independent parser and content from the reference decoder, over the mix words (length <=2 quick / <=3 thorough), the shared streams and every device file of the corpus, under all 8 option sets.")
 	vx.AppendRule("C10", " Chains of mix-family files: every ordered pair of words (length <=1 quick / <=2 thorough) and every triple of the short words through DecodeChained, each returned File against the reference decoder's prediction for that member alone; Decode of the chain must consume exactly the first member.")
